@@ -217,17 +217,31 @@ Definition mw_init (k : mwk) : mstate :=
 Definition st_subs (st : mstate) : list str := match st with StSubs o => o | _ => [] end.
 Definition st_lru (st : mstate) : list str := match st with StLru w => w | _ => [] end.
 
+(** the type switch of each stateful base is part of the step: messages of
+    other types leave the state alone *)
 Definition mw_client_step (k : mwk) (now : Z) (st : mstate) (m : cmsg) : mstate * cres :=
   match k with
-  | MaxSubs n => let (o, r) := quota_client n (st_subs st) m in (StSubs o, r)
-  | RecvUnique size => let (w, r) := recv_unique_client size (st_lru st) m in (StLru w, r)
+  | MaxSubs n =>
+      match m with
+      | CReq _ _ | CClose _ => let (o, r) := quota_client n (st_subs st) m in (StSubs o, r)
+      | _ => (st, Forward m)
+      end
+  | RecvUnique size =>
+      match m with
+      | CEvent _ => let (w, r) := recv_unique_client size (st_lru st) m in (StLru w, r)
+      | _ => (st, Forward m)
+      end
   | _ => (st, mw_client k now m)
   end.
 
 (** ServeNostrServerMsg: the identity for every base but the send-side filter *)
 Definition mw_server_step (k : mwk) (st : mstate) (s : smsg) : mstate * option smsg :=
   match k with
-  | SendUnique size => let (w, o) := send_unique_server size (st_lru st) s in (StLru w, o)
+  | SendUnique size =>
+      match s with
+      | SEvent _ _ => let (w, o) := send_unique_server size (st_lru st) s in (StLru w, o)
+      | _ => (st, Some s)
+      end
   | _ => (st, Some s)
   end.
 
@@ -485,6 +499,10 @@ Definition lim_nonnegb (l : nip11lim) : bool :=
   (0 <=? l_max_event_tags l) && (0 <=? l_max_content l).
 
 Definition zero_lim : nip11lim := mkLim 0 0 0 0 0 0 0 0.
+
+(** "no limitation block at all": a nil document or a nil [Limitation] *)
+Definition no_limitation_block (d : nip11) : Prop :=
+  match d with DocLim _ => False | _ => True end.
 
 (** ** C18 *)
 
